@@ -29,6 +29,7 @@ OPS = ["parse_object_dict", "parse_object_ns", "parse_object_cfg_base", "parse_a
 # where a shape can be made invalid: (path in the object, bad value)
 INVALID = {
     "scalars": (("a",), "bad"),
+    "opt_small": (("a",), "bad"),
     "lists": (("l",), ["bad"]),
     "dicts": (("d",), {"k": "bad"}),
     "tuples": (("t",), [1, 2, 3]),
@@ -136,16 +137,30 @@ def mutation(op, shape):
     from .. import fixtures
 
     install_format_stubs()
-    sh = BY_NAME[shape]
+    with_default_file = shape.endswith("+default_config_file")
+    sh = BY_NAME[shape.split("+")[0]]
     parser = sh.build()
-    parser.parse_object({})  # warm-up
     tmpdir = tempfile.mkdtemp(prefix="c08_")
+    if with_default_file:
+        # a default config file that overrides options whose declared default is None / not None
+        dcf = os.path.join(tmpdir, "defaults.yaml")
+        with open(dcf, "w") as f:
+            f.write("d: 5\nod: 8\na: 3\n")
+        parser.default_config_files = [dcf]
+    parser.parse_object({})  # warm-up
+
+    def declared_defaults():
+        """The defaults as declared on the actions (what get_default reports once no default config file applies)."""
+        from jsonargparse._actions import filter_default_actions
+
+        return {a.dest: snap(a.default) for a in filter_default_actions(parser._actions) if isinstance(a.default, (int, float, bool, str, list, dict, tuple, set, type(None)))}
 
     def harness():
         obj = sh.sym()
-        invalid = S.flag("invalid") if shape in INVALID else False
-        bad_path, bad_val = INVALID.get(shape, ((), None))
+        invalid = S.flag("invalid") if shape.split("+")[0] in INVALID else False
+        bad_path, bad_val = INVALID.get(shape.split("+")[0], ((), None))
         defaults_before = snap(parser.get_defaults())
+        declared_before = declared_defaults()
         g0 = _globals_snapshot()
         args = {}
         raised = None
@@ -242,6 +257,11 @@ def mutation(op, shape):
         r = snap_diff(defaults_before, snap(parser.get_defaults()), ids=False)
         if r:
             return Fail("mutated:parser-defaults", op=op, shape=shape, where=r)
+        declared_after = declared_defaults()
+        for k_, v_ in declared_before.items():
+            r = snap_diff(v_, declared_after.get(k_, ("leaf", type(None), None)), ids=False)
+            if r:
+                return Fail("mutated:declared-default-of-an-argument", op=op, shape=shape, key=k_, where=r)
         if op == "instantiate" and raised is None and shape in CLASS_SHAPES:
             log1 = [(n, _plain(kw)) for n, kw, _ in fixtures.LOG]
             objs1 = [o for _, _, o in fixtures.LOG]
@@ -295,6 +315,8 @@ def plan(tier):
     for op in ("parse_args_ns", "parse_object_cfg_base", "merge_config"):
         if tier == "quick":
             jobs.append((op, "class_list_small"))
+    for op in ("format_help", "get_defaults", "parse_object_dict", "dump", "parse_args_ns"):
+        jobs.append((op, "opt_small+default_config_file"))
     for shape in shapes:
         for op in OPS:
             if op == "instantiate" and shape not in CLASS_SHAPES:
